@@ -30,12 +30,15 @@ class _Meta(type(_real_datetime)):
 class VDatetime(_real_datetime, metaclass=_Meta):
     _vt_now = None          # virtual LOCAL time (naive)
     _vt_utc_offset = 0      # seconds east of UTC of the world's time zone
+    _vt_step = 0            # seconds the virtual clock advances after every reading (time passes)
 
     @classmethod
     def now(cls, tz=None):
         if cls._vt_now is None:
             return _real_datetime.now(tz)
         n = cls._vt_now
+        if cls._vt_step:
+            cls._vt_now = n + _dt.timedelta(seconds=cls._vt_step)
         if tz is not None:
             u = n - _dt.timedelta(seconds=cls._vt_utc_offset)
             return _real_datetime(u.year, u.month, u.day, u.hour, u.minute, u.second,
@@ -75,13 +78,14 @@ def _getuid():
     return _real_getuid() if _uid[0] is None else _uid[0]
 
 
-def set_world(vols, uid, now, utc_offset=0, fstypes=None):
+def set_world(vols, uid, now, utc_offset=0, fstypes=None, clock_step=0):
     """called in the child: vols are world-absolute mount points ('/' included)"""
     fstypes = fstypes or {}
     _partitions[:] = [sdiskpart("/dev/vt%d" % i, v, fstypes.get(v, "ext4"), "rw") for i, v in enumerate(vols)]
     _uid[0] = uid
     VDatetime._vt_now = now
     VDatetime._vt_utc_offset = utc_offset
+    VDatetime._vt_step = clock_step
 
 
 def set_epoch(now):
